@@ -91,8 +91,17 @@ def task_walk(ctx):
         raise RuntimeError('extensions could not be built: %s' % msg)
     src = open(os.path.join(os.path.dirname(os.path.abspath(__file__)),
                             'c06_model_walk.py')).read()
-    r = native.run_venv(src, dict(built=dst, seeds=seeds, steps=steps),
-                        timeout=3000, cwd='/tmp')
+    try:
+        r = native.run_venv(src, dict(built=dst, seeds=seeds, steps=steps),
+                            timeout=3000, cwd='/tmp')
+    except RuntimeError as e:
+        # the real code died under the scenarios (segfault, abort): a
+        # failing case, not a checker error
+        ctx.bounded_check('native.process_died', 'the scenarios of this '
+                          'stand-in, run in one process', 1, False,
+                          dict(problem='the process running the real '
+                               'code died', output=str(e)[-400:]))
+        return
     bound = ('%d random call sequences of up to %d calls (add_particles, '
              'remove_particles, remove_tagged_particles, extract_particles, '
              'append_parray of an array with another property set, '
@@ -974,7 +983,9 @@ def task_append(ctx, repo, m):
         other = SymObject(None, dict(
             properties=sprops, stride={'v': 3, 'q': 2},
             default_values={'x': 0, 'v': 0, 'q': z3.Real('dq')},
-            constants={'c2': ('src', 'c2'), 'c3': ('src', 'c3')},
+            constants={cn: SymObject(None, dict(get_npy_array=Native(
+                lambda e, s_, a, k_, nn, cn=cn: ('values_of', 'src', cn))),
+                'src_const_' + cn) for cn in ('c2', 'c3')},
             # k particles in all, k_real of them Local
             get_number_of_particles=Native(
                 lambda e, s_, a, k_, nn: z3.Int('k_real') if (
@@ -997,6 +1008,9 @@ def task_append(ctx, repo, m):
                 lambda e, s_, a, k_, nn: s_.trace.append(('extend_all',
                                                           a[1]))),
             'ParticleArray.add_property': CalleeContract(add_property),
+            # a NEW array holding the given values (contract of the helper)
+            'ParticleArray._create_c_array_from_npy_array': CalleeContract(
+                lambda e, s_, a, k_, nn: ('new_array_with', a[1])),
             'ParticleArray.align_particles': CalleeContract(
                 lambda e, s_, a, k_, nn: s_.trace.append(('align',)))})
         ex.spec_env['PyDict_GetItem'] = Native(lambda e, s_, a, k_, nn:
@@ -1017,7 +1031,9 @@ def task_append(ctx, repo, m):
             cs = o.state.env['self'].attrs['constants']
             want_c = dict(own_consts)
             if upd:
-                want_c['c3'] = ('src', 'c3')
+                # ... as an array of its own holding the source's values:
+                # the two particle arrays must not share the object
+                want_c['c3'] = ('new_array_with', ('values_of', 'src', 'c3'))
             okc = isinstance(cs, dict) and cs == want_c
             obs.append(Obligation(
                 'append.constants.%d.%s.%s' % (i_, align, upd), o.pc,
@@ -1383,8 +1399,9 @@ def task_misc(ctx, repo, m):
     # defaults -- the tag default is the array's default_particle_tag
     fn = M['clear']
     tagdef = z3.Int('default_particle_tag')
-    obj = pa_self({'x': carr_obj('x')}, {}, n, dict(
-        default_values={'x': 1, 'tag': tagdef, 'pid': 5, 'gid': 7}))
+    obj = pa_self({'x': carr_obj('x'), 'A': carr_obj('A')}, {'A': 2}, n,
+                  dict(default_values={'x': 1, 'A': 0, 'tag': tagdef,
+                                       'pid': 5, 'gid': 7}))
     ex = executor(repo, m, 'clear')
     ex.spec_env['IntArray'] = Native(lambda e, s_, a, k_, nn: ('IntArray',
                                                                a[0]))
@@ -1403,8 +1420,15 @@ def task_misc(ctx, repo, m):
                 sorted(dv) == ['gid', 'pid', 'tag'] and \
                 S.same(dv['tag'], tagdef) and dv['pid'] == 0 and \
                 dv['gid'] == ('UINT_MAX',)
+            # nothing of the cleared properties survives: a property added
+            # later under an old name must not inherit the old stride, and an
+            # array without particles has no real particles
+            ok2 = len(at['stride']) == 0 and \
+                S.same(at['num_real_particles'], 0)
         obs.append(Obligation('clear.keeps_the_default_particle_tag', [],
                               z3.BoolVal(bool(ok)), W))
+        obs.append(Obligation('clear.forgets_strides_and_real_count', [],
+                              z3.BoolVal(bool(ok and ok2)), W))
     except VCError as e:
         ctx.outside('misc.clear', str(e))
     # ---- cloning: empty_clone, ensure_properties
